@@ -167,6 +167,21 @@ def make_junk(target):
         f.write(b"\x00" * 16)
 
 
+def real_kind(target):
+    """none / foreign / zip / dir (a directory that loads) / junk (a directory that does not load)."""
+    from quantem.core.io.serialize import load
+    if not os.path.lexists(target):
+        return "none"
+    if os.path.isdir(target):
+        try:
+            with contextlib.redirect_stdout(io.StringIO()):
+                load(target)
+            return "dir"
+        except Exception:  # noqa: BLE001
+            return "junk"
+    return "zip" if zipfile.is_zipfile(target) else "foreign"
+
+
 def run_scenario(arg):
     """Replays one model scenario.  Returns list of (key, msg) problems."""
     sc, idx, every = arg
@@ -323,8 +338,7 @@ def run_scenario(arg):
             # harness cannot steer, so the real file system is brought to the model's choice: a remnant
             # (already checked above to be unreadable) is removed, or an unreadable directory is put in place
             left = res.get("left")
-            if left == "none" and store == "dir" and res["ev"] == "fail-writing" and os.path.isdir(target) \
-                    and not os.path.exists(os.path.join(target, "zarr.json")):
+            if left == "none" and store == "dir" and res["ev"] == "fail-writing" and real_kind(target) == "junk":
                 shutil.rmtree(target)
                 problems.append(("note:straggler", ""))
             elif left == "junk" and not os.path.lexists(target):
@@ -332,9 +346,7 @@ def run_scenario(arg):
             # consistency of the replay with the model: kind of the target before the next save
             if i < len(events):
                 nxt = events[i]["ev"][6:]
-                real = "none" if not os.path.lexists(target) else (
-                    ("dir" if os.path.exists(os.path.join(target, "zarr.json")) else "junk") if os.path.isdir(target)
-                    else ("zip" if zipfile.is_zipfile(target) else "foreign"))
+                real = real_kind(target)
                 if nxt != real and not [p for p in problems if not p[0].startswith("note:")]:
                     problems.append(("model-mismatch", f"model expects target kind {nxt} before save "
                                                        f"{ident + 1}, real file system has {real}"))
